@@ -21,7 +21,8 @@ open EzdxfVerif EzdxfVerif.XTags EzdxfVerif.Storage EzdxfVerif.StorageDoc Proto
     file|ver|msp|psp|alive,…|key,…|records -> ok tags | err kind (whole file, ver = 1027 for AC1027; TABLES answered as (0,TABLES))
     class|r2004|tags          -> ok tags | none            (DXFClass load -> export)
     clsec|r2004|records       -> ok tags | none            (ClassesSection load -> export, no required classes)
-    hdr|ver|vertext|name:value;… -> name:value;…           (HeaderSection load -> export as groups)
+    clsecr|r2004|records      -> ok tags | none            (ClassesSection load -> add_required_classes -> export, without a document)
+    hdr|ver|vertext|name:code:value;… -> ok tags           (HeaderSection load -> export; value conversion = castStub)
     hsec|ver|tags             -> ok tags | none            (HEADER section at tag level: validator, groups, export; tags behind (2, HEADER))
     proxy|alive,…|tags        -> ok tags | err kind        (ACADProxyEntity; the AcDbEntity subclass is echoed)
     generic|alive,…|tags      -> ok base tags#xdata tags | err kind (DXFEntity.export_base_class / export_xdata of an implemented class)
@@ -63,6 +64,13 @@ def parsePairs (s : String) : Option (List (V × V)) :=
     | [a, b] => do let x ← parseNats a; let y ← parseNats b; some (V.str x, V.str y)
     | _ => none
 
+/-- name:code:value;… -/
+def parseTriples (s : String) : Option (List (V × Tag)) :=
+  if s.isEmpty then some [] else
+  (s.splitOn ";").mapM fun p => match p.splitOn ":" with
+    | [a, c, b] => do let x ← parseNats a; let code ← c.toNat?; let y ← parseNats b; some (V.str x, ⟨code, .str y⟩)
+    | _ => none
+
 def showPairs (ps : List (V × V)) : String :=
   ";".intercalate (ps.map fun p => showV p.1 ++ ":" ++ showV p.2)
 
@@ -84,6 +92,33 @@ def stubKnown (r : Rec) (_ : List Rec) : List Tag :=
   if recType r == .str (strOf "ATTRIB") || recType r == .str (strOf "VERTEX") || recType r == .str (strOf "SEQEND") then []
   else [⟨0, recType r⟩, ⟨5, (firstVal 5 r).getD (.str [])⟩]
 
+def isDigits (l : List Nat) : Bool := !l.isEmpty && l.all (fun c => 48 ≤ c && c ≤ 57)
+
+def isIntText : V → Bool
+  | .str (45 :: r) => isDigits r
+  | .str (43 :: r) => isDigits r
+  | .str l => isDigits l
+  | .ref _ => false
+
+/-- digits [. digits] with an optional sign -/
+def isDecimalText (v : V) : Bool :=
+  match v with
+  | .str l =>
+    let l := match l with | 45 :: r => r | 43 :: r => r | _ => l
+    let a := l.takeWhile (fun c => c != 46)
+    let b := (l.dropWhile (fun c => c != 46)).drop 1
+    if l.contains 46 then (isDigits a || a.isEmpty) && (isDigits b || b.isEmpty) && !(a.isEmpty && b.isEmpty) else isDigits a
+  | .ref _ => false
+
+open EzdxfVerif.Gen.StorageTables in
+/-- stand-in for `_cast_header_value` on the texts the generators use (value typing is C03): text stays text, an integer / a float
+    code takes integer / decimal texts, a point cannot be made from a single value -/
+def castStub (c : Nat) (t : Tag) : Option V :=
+  if c == 10 then none
+  else if intCodes.contains c then (if isIntText t.val then some t.val else none)
+  else if floatCodes.contains c then (if isDecimalText t.val then some t.val else none)
+  else some t.val
+
 def stubCfg (msp psp : V) (al : List V) : DocCfg :=
   { alive := fun v => al.contains v
     known := stubKnown
@@ -91,7 +126,9 @@ def stubCfg (msp psp : V) (al : List V) : DocCfg :=
       if firstVal 330 r == some msp then false else if firstVal 330 r == some psp then true
       else match firstVal 67 r with | some v => v != .str [48] | none => false
     attribsFollow := fun r => match firstVal 66 r with | some v => v != .str [48] | none => false
-    msp := msp, psp := psp }
+    msp := msp, psp := psp
+    skipObject := fun _ => false
+    castHeader := castStub }
 
 def showDErr : DErr → String
   | .ent e => showErr e
@@ -147,13 +184,17 @@ def step2 (line : String) : Option String :=
     (match parseRecs r with
      | some recs => some (showOpt (classesPass (v == "1") recs []))
      | none => some "bad-op")
+  | ["clsecr", v, r] =>
+    (match parseRecs r with
+     | some recs => some (showOpt (classesPass (v != "0") recs (requiredExtra (v != "0"))))
+     | none => some "bad-op")
   | ["hdr", ver, vt, g] =>
-    (match ver.toNat?, parseNats vt, parsePairs g with
-     | some ver, some vt, some gs => some (showPairs (headerPass ver (.str vt) gs))
+    (match ver.toNat?, parseNats vt, parseTriples g with
+     | some ver, some vt, some gs => some ("ok " ++ showTags (headerTagsOf ver (headerPass ver (.str vt) castStub gs)))
      | _, _, _ => some "bad-op")
   | ["hsec", ver, t] =>
     (match ver.toNat?, parseTags t with
-     | some ver, some ts => some (showOpt (headerSectionPass ver (.str (strOf ("AC" ++ toString ver))) ts))
+     | some ver, some ts => some (showOpt (headerSectionPass ver (.str (strOf ("AC" ++ toString ver))) castStub ts))
      | _, _ => some "bad-op")
   | ["proxy", a, t] =>
     (match parseAlive a, parseTags t with
